@@ -32,19 +32,21 @@ pub struct Plan {
     pub fallback: Fallback,
     /// fail with this kind when the read position reaches this offset
     pub fail_at: Option<(usize, ErrorKind)>,
+    /// transient fault: fail once at that offset, then carry on delivering (false = the source keeps failing)
+    pub fail_once: bool,
     /// deferred wakes are fired by a helper thread (needed under block_on bridges)
     pub thread_wake: bool,
 }
 
 impl Plan {
     pub fn full() -> Plan {
-        Plan { steps: vec![], fallback: Fallback::Full, fail_at: None, thread_wake: false }
+        Plan { steps: vec![], fallback: Fallback::Full, fail_at: None, fail_once: false, thread_wake: false }
     }
     pub fn chunk(k: usize) -> Plan {
-        Plan { steps: vec![], fallback: Fallback::Chunk(k.max(1)), fail_at: None, thread_wake: false }
+        Plan { steps: vec![], fallback: Fallback::Chunk(k.max(1)), fail_at: None, fail_once: false, thread_wake: false }
     }
     pub fn steps(steps: Vec<Step>) -> Plan {
-        Plan { steps, fallback: Fallback::Full, fail_at: None, thread_wake: false }
+        Plan { steps, fallback: Fallback::Full, fail_at: None, fail_once: false, thread_wake: false }
     }
 }
 
@@ -60,6 +62,7 @@ pub struct Log {
     pub reads_after_eof: u64,
     pub max_request: usize,
     pub step_idx: usize,
+    pub faults_fired: u64,
     pub parked: Option<Waker>,
     /// (offset, requested, delivered) for the first calls, for witnesses
     pub trace: Vec<(usize, usize, isize)>,
@@ -110,9 +113,11 @@ impl Scripted {
             l.zero_len_calls += 1;
             return Next::Deliver(0);
         }
+        let fault_armed = !(self.plan.fail_once && l.faults_fired > 0);
         if let Some((off, kind)) = self.plan.fail_at {
-            if l.pos >= off {
+            if l.pos >= off && fault_armed {
                 l.errors += 1;
+                l.faults_fired += 1;
                 return Next::Fail(kind);
             }
         }
@@ -153,7 +158,9 @@ impl Scripted {
         }
         let mut n = want.min(cap).min(left);
         if let Some((off, _)) = self.plan.fail_at {
-            n = n.min(off - l.pos);
+            if fault_armed {
+                n = n.min(off - l.pos);
+            }
         }
         let n = n.max(1).min(left);
         Next::Deliver(n)
